@@ -35,7 +35,7 @@ pub enum Ty {
     Ignored,
 }
 
-#[derive(Clone, Debug, PartialEq)]
+#[derive(Clone, Debug)]
 pub enum Val {
     Null,
     Bool(bool),
@@ -52,6 +52,29 @@ pub enum Val {
     Map(Vec<(Val, Val)>),
     Struct(Vec<(String, Val)>),
     Variant(String, Box<Val>),
+}
+
+impl PartialEq for Val {
+    fn eq(&self, o: &Val) -> bool {
+        use Val::*;
+        match (self, o) {
+            (Null, Null) | (Unit, Unit) | (None, None) => true,
+            (Bool(a), Bool(b)) => a == b,
+            (Int(a), Int(b)) => a == b,
+            (UInt(a), UInt(b)) => a == b,
+            (Int(a), UInt(b)) | (UInt(b), Int(a)) => *a >= 0 && *a as u128 == *b,
+            (Float(a), Float(b)) => a.to_bits() == b.to_bits() || (a.is_nan() && b.is_nan()),
+            (Char(a), Char(b)) => a == b,
+            (Str(a), Str(b)) => a == b,
+            (Bytes(a), Bytes(b)) => a == b,
+            (Some(a), Some(b)) => a == b,
+            (Seq(a), Seq(b)) => a == b,
+            (Map(a), Map(b)) => a == b,
+            (Struct(a), Struct(b)) => a == b,
+            (Variant(a, x), Variant(b, y)) => a == b && x == y,
+            _ => false,
+        }
+    }
 }
 
 fn fields_coq(fs: &[(String, Ty)]) -> String {
